@@ -65,6 +65,15 @@ class Matrix(abc.ABC):
                 v.flags.writeable = False
             self.__dict__[k] = v
 
+    def __setstate__(self, state: dict) -> None:
+        self.__dict__.update(state)
+        # Arrays held by matrix objects are read-only, however the flag is not preserved
+        # when arrays are copied or unpickled so restore it for (deep) copies
+        for value in self.__dict__.values():
+            for item in value if isinstance(value, tuple) else (value,):
+                if isinstance(item, np.ndarray):
+                    item.flags.writeable = False
+
     def __array__(self) -> NDArray:
         return self.array
 
@@ -253,7 +262,11 @@ class ImplicitArrayMatrix(Matrix):
         with it will not be able to exploit any structure in the matrix.
         """
         if self._array is None:
-            self._array = self._construct_array()
+            array = self._construct_array()
+            if isinstance(array, np.ndarray):
+                # Returned array is cached so prevent it being modified in place
+                array.flags.writeable = False
+            self._array = array
         return self._array
 
     @abc.abstractmethod
@@ -436,6 +449,8 @@ class SymmetricMatrix(SquareMatrix):
 
     def _compute_eigendecomposition(self) -> None:
         self._eigval, eigvec = nla.eigh(self.array)
+        # Eigenvalues array is cached so prevent it being modified in place
+        self._eigval.flags.writeable = False
         self._eigvec = OrthogonalMatrix(eigvec)
 
     @property
@@ -1312,6 +1327,9 @@ class DenseSquareMatrix(InvertibleMatrix, ExplicitArrayMatrix):
         """Pivoted LU factorisation of matrix."""
         if self._lu_and_piv is None:
             self._lu_and_piv = sla.lu_factor(self._array, check_finite=False)
+            # Factorisation is cached so prevent it being modified in place
+            for factor_array in self._lu_and_piv:
+                factor_array.flags.writeable = False
             self._lu_transposed = False
         return self._lu_and_piv
 
